@@ -14,7 +14,8 @@ ID = "C17"
 LEVEL = "exploration"
 EXAMPLES = {"quick": 500, "thorough": 10000}
 RULE = ("Generated: LP portfolios (contracts with spread / takes / time-varying capacity, storages with efficiency, "
-        "inflow and costs, transports in both directions with costs, multi-commodity contracts, market pairs; 1-2 nodes; 3-10 steps x freq x unit x "
+        "inflow and costs (a quarter at a coarser asset frequency), transports in both directions with costs, multi-commodity contracts, order books "
+        "(orders inside, outside and across the horizon, half of them with orders reaching from the present into the future), market pairs; 1-2 nodes; 3-10 steps x freq x unit x "
         "zone; wacc), 1-3 price samples that share the present prices with the original prices and differ in the "
         "future (or, in 15%, coincide with them), present/future boundary at any inner step. Oracle SLP: (i) n = "
         "n_present + (S+1) n_future and every scenario block (x_present, x_future^s) is feasible for the "
@@ -22,7 +23,7 @@ RULE = ("Generated: LP portfolios (contracts with spread / takes / time-varying 
         "scenario by a fresh portfolio; (iii) mean_s V_s >= V_SLP >= EV_k for every scenario k, where V_s are the "
         "per-scenario optima and EV_k pins the present part of an optimal solution of scenario k and averages the "
         "re-optimised scenario values (all by scipy-HiGHS); (iv) identical scenarios => deterministic optimum. "
-        "Robust target: x feasible, min_s val_s(x_rob) >= min_s val_s(x^k) for every single-scenario solution and "
+        "A variable is a future variable iff the first step it acts in is. Robust target (scenario set with or without the set-up prices, down to one scenario): x feasible, min_s val_s(x_rob) >= min_s val_s(x^k) for every single-scenario solution and "
         "<= min_k V_k. Non-trivial: scenarios differ and EV_k < V_SLP < mean V_s strictly for some k (SLP) / the "
         "robust solution differs in worst-case value from some single-scenario solution. Distinct = distinct spec hash.")
 ASSUMPTIONS = ["only Results.x and Results.value of the SLP are used (with several rows per variable make_slp renumbers the mapping by "
@@ -40,14 +41,27 @@ def _strategy(draw):
     cx = gen.Cx(g, nodes, prices)
     assets = []
     for i in range(draw(st.integers(1, 3))):
-        cls = draw(st.sampled_from(["simple", "storage", "storage", "contract", "transport", "transport", "multi"]))
+        cls = draw(st.sampled_from(["simple", "storage", "storage", "contract", "transport", "transport", "multi",
+                                    "orderbook", "orderbook"]))
         a = gen.draw_asset(draw, cx, cls, "a%d" % i)
+        if cls == "orderbook":
+            a["wacc"] = 0.0
+            if draw(st.booleans()):
+                # orders that begin in the present and reach into the future (one variable over several steps)
+                T_ = g["T"]
+                for o in a["orders"][:3]:
+                    o[0] = draw(st.integers(0, max(0, T_ - 2)))
+                    o[1] = draw(st.integers(min(T_, o[0] + 2), T_))
         if a["type"] in ("transport", "exttransport") and a.get("costs_time_series") is None and draw(st.booleans()):
             a["costs_time_series"] = "p1"
             a["costs_const"] = max(a["costs_const"], 0.25)
         if a["type"] == "storage":
             a["price"] = None
             a["nodes"] = a["nodes"][:1]
+            if tl.uniform(g) and draw(st.integers(0, 3)) == 0:
+                # coarser asset frequency: one variable over several steps (no price series involved)
+                a["start"] = a["end"] = None
+                gen.coarsen(draw, cx, a)
         if a.get("min_take") or a.get("max_take"):
             a["start"] = a["end"] = None
         assets.append(a)
@@ -71,7 +85,8 @@ def _strategy(draw):
                 s[name] = list(v)
         samples.append(s)
     return {"grid": g, "prices": cx.prices, "assets": assets, "boundary": k, "samples": samples,
-            "target": draw(st.sampled_from(["slp", "slp", "robust"])), "identical": same}
+            "target": draw(st.sampled_from(["slp", "slp", "robust"])), "identical": same,
+            "robust_with_base": draw(st.booleans())}
 
 
 def strategy(tier):
@@ -95,7 +110,7 @@ def check(spec):
     op = r.op
     n = len(op.c)
     if len(set(op.mapping.index)) != n:
-        return out.drop("unmapped_variables")
+        out.label("unmapped_variables")
     out.label("multi_row_variables" if op.mapping.index.duplicated().any() else None)
     raw0 = lpkit.from_op(op)
     scen_prices = [spec["prices"]] + list(spec["samples"])
@@ -116,15 +131,22 @@ def check(spec):
             return out.drop("scenario_" + st_)
         Vs.append(v_)
         xs.append(x_)
-    m1 = op.mapping[~op.mapping.index.duplicated(keep="first")]
-    steps = m1["time_step"].values.astype(int)
-    idx = m1.index.values.astype(int)
+    # a variable belongs to the future iff every step it acts in does (an order or a coarse-frequency variable
+    # that begins in the present is a present decision)
+    first_step = op.mapping["time_step"].astype(int).groupby(level=0).min()
     fut = np.zeros(n, bool)
-    fut[idx] = steps >= k
+    fut[first_step.index.values.astype(int)] = first_step.values >= k
+    if op.mapping.index.duplicated().any() and (first_step < k).any():
+        last_step = op.mapping["time_step"].astype(int).groupby(level=0).max()
+        out.label("variable_spans_boundary" if ((first_step < k) & (last_step >= k)).any() else None)
     scale = raw0.scale()
     tf = 20 * core.tol_feas(scale)
     tv = 2 * core.tol_val(np.mean(Vs))
     if spec["target"] == "robust":
+        if not spec.get("robust_with_base", True):
+            # the scenario set need not contain the prices the problem was set up with (and may be a single scenario)
+            cs, Vs, xs = cs[1:], Vs[1:], xs[1:]
+            out.label("robust_without_base", "robust_single_scenario" if len(cs) == 1 else None)
         samples_c = [np.asarray(c, float) for c in cs]
         res = eao_call(op.optimize, target="robust", samples=samples_c)
         if is_err(res):
